@@ -14,7 +14,7 @@ RULE = ('(a) exhaustive: every well-formed operator sequence of length <=2 (quic
         'classes (empty, singleton, ints, ints+exception objects, nested lists), consumed by iteration / collect / drain; (b) seeded random programs '
         'of length <=7 on lists up to 40; (c) one-to-one chains on an instrumented unbounded source: 0 pulls at construction, pulls <= k + sum of '
         'look-ahead after taking k outputs. non-trivial = program of >=2 operators whose reference output is non-empty or ends in an exception; '
-        'distinct = distinct (program, input)')
+        'distinct = distinct (program, input); (d) stalled consumption: consumer or source silent for 0.12-2.2 s while buffers / look-ahead windows are full')
 ASSUMPTIONS = ['groupby groups are materialised by a map directly after groupby (late consumption across threads is schedule-dependent by itertools\' own contract)',
                'shuffle is compared as a multiset and only as the last operator',
                'exceptions compared by (type name, args)']
